@@ -737,6 +737,10 @@ class AbstractExcelInPython(ABC):
             column_number = row_number
             row_number = None
 
+        # отрицательный номер не должен отсчитываться с конца диапазона
+        if (row_number or 0) < 0 or (column_number or 0) < 0:
+            return '#VALUE!'
+
         try:
             # Если не указаны номер столбца/строки, берем значения из всех столбцов/строк
             row = [array[row_number - 1]] if row_number else array
